@@ -8,30 +8,45 @@
 (***************************************************************************)
 EXTENDS Naturals, Integers, Sequences, FiniteSets, FiniteSetsExt, TLC
 
+\* @type: (Int -> Int, Int) => Int;
 Size(w, b)  == Cardinality({x \in DOMAIN w : w[x] = b})
+\* @type: (Int -> Int) => Set(Int);
 Used(w)     == {w[x] : x \in DOMAIN w} \ {-1}
+\* @type: (Int -> Int) => Int;
 MaxId(w)    == IF Used(w) = {} THEN -1 ELSE Max(Used(w))
+\* @type: (Int -> Int) => Bool;
 Dense(w)    == Used(w) = 0..(Cardinality(Used(w)) - 1)
+\* @type: (Int -> Int, Int) => Bool;
 Ranked(w, e) == w[e] >= 0
+\* the same without a computed range (for the symbolic checker): every used id but 0 has its predecessor used
+\* @type: (Int -> Int) => Bool;
+DenseAlt(w) == \A b \in Used(w) : b >= 0 /\ (b = 0 \/ (b - 1) \in Used(w))
 
+\* @type: (Int -> Int, Int) => (Int -> Int);
 AddLeftF(w, e) == LET b == w[e] IN
     IF Size(w, b) > 1 THEN [[x \in DOMAIN w |-> IF w[x] >= b THEN w[x] + 1 ELSE w[x]] EXCEPT ![e] = b] ELSE w
+\* @type: (Int -> Int, Int) => (Int -> Int);
 AddRightF(w, e) == LET b == w[e] IN
     IF Size(w, b) > 2 THEN [[x \in DOMAIN w |-> IF w[x] > b THEN w[x] + 1 ELSE w[x]] EXCEPT ![e] = b + 1] ELSE w
+\* @type: (Int -> Int, Int) => (Int -> Int);
 ChangeLeftF(w, e) == LET b == w[e] IN
     IF b # 0 THEN LET u == IF Size(w, b) = 1 THEN [x \in DOMAIN w |-> IF w[x] > b THEN w[x] - 1 ELSE w[x]] ELSE w
                   IN [u EXCEPT ![e] = u[e] - 1]
     ELSE w
+\* @type: (Int -> Int, Int) => (Int -> Int);
 ChangeRightF(w, e) == LET b == w[e] IN
     IF b # MaxId(w) /\ (Size(w, b) > 1 \/ Size(w, b + 1) > 1)
     THEN LET u == [w EXCEPT ![e] = b + 1]
          IN IF Size(w, b) = 1 THEN [x \in DOMAIN w |-> IF u[x] > b THEN u[x] - 1 ELSE u[x]] ELSE u
     ELSE w
+\* @type: (Int -> Int, Int) => (Int -> Int);
 RemoveF(w, e) == LET b == w[e] IN
     [(IF Size(w, b) = 1 THEN [x \in DOMAIN w |-> IF w[x] > b THEN w[x] - 1 ELSE w[x]] ELSE w) EXCEPT ![e] = -1]
+\* @type: (Int -> Int, Int) => (Int -> Int);
 PutFirstF(w, e) == [[x \in DOMAIN w |-> IF w[x] >= 0 THEN w[x] + 1 ELSE w[x]] EXCEPT ![e] = 0]
 
 \* one step of the chain: element e, random draw alea (1..4 complete, 1..5 incomplete)
+\* @type: (Int -> Int, Int, Int, Bool) => (Int -> Int);
 StepF(w, e, alea, complete) ==
     IF ~Ranked(w, e) THEN (IF ~complete /\ alea = 5 THEN PutFirstF(w, e) ELSE w)
     ELSE CASE alea = 1 -> AddLeftF(w, e)
